@@ -101,3 +101,12 @@ package trie
 //@   loop 1 invariant[C04] putclock >= old(putclock) && (forall x common.Hash :: putat[x] == old(putat[x]) || (old(putclock) <= putat[x] && putat[x] < putclock))
 //@   loop 1 invariant[C04] forall c common.Hash :: $seen(c) && has(db.nodes, c) ==> old(putclock) <= putat[c] && putat[c] < putclock
 //@   assigns putat, putclock, flushed, inferred
+
+// ---- embedding rule of the node hasher (C10) -----------------------------------------------------
+// A node is referenced from its parent by hash exactly when its RLP encoding is at least 32 bytes
+// long (or when forced, for the root); shorter nodes are embedded. (Yellow Paper appendix D, n(...).)
+//@ func hasher.store
+//@   requires h != nil && h.tmp != nil
+//@   ensures[C10] @embed result1 == nil && n != nil && !typeis(n, "trie.hashNode") && rlpenclen(n) < 32 && !force ==> result0 == n
+//@   ensures[C10] @hashed result1 == nil && n != nil && !typeis(n, "trie.hashNode") && (rlpenclen(n) >= 32 || force) ==> typeis(result0, "trie.hashNode")
+//@   ensures[C10] @passthrough (n == nil || typeis(n, "trie.hashNode")) ==> result0 == n && result1 == nil
